@@ -201,6 +201,9 @@ def const_eval(fa, op, depth=0):
             return None
     if rv["k"] in ("use", "cast"):
         return const_eval(fa, rv["op"], depth + 1)
+    if rv["k"] == "unop" and rv.get("op") == "Neg":
+        a = const_eval(fa, rv["a"], depth + 1)
+        return None if a is None else -a
     if rv["k"] == "binop":
         a, b = const_eval(fa, rv["a"], depth + 1), const_eval(fa, rv["b"], depth + 1)
         if a is None or b is None:
